@@ -3,12 +3,12 @@ import os, sys, subprocess, json
 import gen, streams
 from common import *
 
-NEEDS_DRIVER = False
+NEEDS_DRIVER = True
 RULE = ('subprocess runs: nesting construct (parens, brackets, CASE, function calls, subqueries, unclosed openers, BEGIN blocks, mixed) x depth (below, around and beyond the '
         'recursion limit) x recursion limit {200, 500, 1000, 3000} x entry point {parse, parsestream, split, format with option sets}; each followed by an ordinary call in the same process; '
         'successful results are checked for round trip and tree well-formedness; non-trivial = distinct (construct, depth, limit, entry point)')
-ASSUMPTIONS = ['CPython frame accounting and C-stack behaviour are observed, not modelled']
-PARTIAL = ['depth bound / fuel adequacy of the model passes are not theorems; the scope of the try block (extracted from the source) is']
+ASSUMPTIONS = ['CPython frame accounting and C-stack behaviour are observed, not modelled', 'lexer/splitter/grouping models tied by S-TREE on the nesting constructs (and by the streams of C01/C02/C04)']
+PARTIAL = ['over the model: the only failure of parse is RecursionError (parse_fails_only_by_depth), it is mapped to SQLParseError at every stage, enough depth always succeeds; what depth CPython needs for a given input (frame accounting, C stack) is observed by subprocess runs at several recursion limits, not modelled']
 
 SCRIPT = r'''
 import sys, json, io
@@ -81,8 +81,19 @@ OPTS = [{}, {'reindent': True}, {'reindent_aligned': True}, {'strip_comments': T
         {'reindent': True, 'indent_columns': True, 'comma_first': True}, {'keyword_case': 'upper', 'output_format': 'python'}]
 
 
+def build(kind, d):
+    ns = {}
+    exec(SCRIPT.split("cases = %(cases)r")[1].split("def wf(node):")[0], ns)
+    return ns['build'](kind, d)
+
+
 def run(ctx):
     rng = ctx.rng
+    # the models behind parse_fails_only_by_depth, on the nesting constructs themselves (moderate depths: same tree or both sides fail)
+    if ctx.model.available:
+        import streams
+        nested = [build(kind, d) for kind in KINDS for d in ([1, 2, 3, 5, 8, 13, 30] if ctx.quick() else list(range(1, 16)) + [20, 30, 45, 60])]
+        streams.s_tree(ctx, nested)
     cases = []
     limits = [200, 500, 1000] if ctx.quick() else [200, 500, 1000, 3000]
     for limit in limits:
